@@ -183,7 +183,23 @@ def safe_stmt_value(c: Ctx):
         g = c.uid("g")
         c.pre.append(f"function {g}(v){{return [v];}}")
         return f"{g}({safe_value(c)})"
-    if r < 0.44:  # shadowing parameter named inputs (function declaration)
+    if r < 0.40:
+        # a callback (function EXPRESSION) whose parameter is named `inputs` / like a tracked alias, inside a
+        # function declaration, followed by genuine reads in that declaration
+        g, q = c.uid("pk"), c.uid("q")
+        form = rng.choice(["inputs", "alias", "top"])
+        c.read("arr")
+        if form == "inputs":
+            c.pre.append(f"function {g}(l){{ var {q} = l.map(function(inputs){{return inputs.name;}}); return {q}.concat([{safe_value(c)}]); }}")
+            return f"{g}(inputs.arr)"
+        if form == "alias":
+            y = c.uid("y")
+            c.pre.append(f"var {y}; {y} = inputs; function {g}(l){{ var {q} = l.map(function({y}){{return {y}.nm;}}); "
+                         f"return {q}.concat([{safe_access(c, base=y)}, {safe_access(c)}]); }}")
+            return f"{g}(inputs.arr)"
+        c.pre.append(f"var {q} = inputs.arr.map(function(inputs){{return inputs.name;}});")
+        return f"[{q}.length, {safe_value(c)}]"
+    if r < 0.46:  # shadowing parameter named inputs (function declaration)
         g = c.uid("sh")
         c.pre.append(f"function {g}(inputs){{return inputs.shadow + inputs['shadow2'];}}")
         return f"{g}({{shadow: 1, shadow2: 2}})"
